@@ -79,7 +79,7 @@ impl Check for C01 {
     }
     fn rule(&self) -> String {
         "Programs are generated from a choice tape (proptest Vec<u8>, 0..700 bytes) by the intent-typed \
-         `general` profile of nsgen (numbers, strings with escapes and placeholders, booleans, null, nested \
+         `general` profile of nsgen (plus smaller stages with the `scope` and `reclaim` profiles) (numbers, strings with escapes and placeholders, booleans, null, nested \
          arrays, redeclaration, blocks, if/else, counter loops with comot/next, recursive / mutually recursive / \
          nested / forward-referenced functions, all documented built-ins and methods, planted runtime errors), \
          printed to source text and run through lexer+parser+resolver+runtime (frame arena, pool, optimisation \
@@ -101,6 +101,11 @@ impl Check for C01 {
         crate::prop::run(ctx, "general", cases, tape_strategy(700), |ctx, tape| {
             check_case(ctx, tape, PROFILE)
         });
+        // name reuse, deep nesting and captures are part of "all well-formed programs" as well
+        let n_scope = ctx.tier.pick(3_000, 40_000);
+        crate::prop::run(ctx, "scope", n_scope, tape_strategy(700), |ctx, tape| check_case(ctx, tape, "scope"));
+        let n_reclaim = ctx.tier.pick(2_000, 30_000);
+        crate::prop::run(ctx, "reclaim", n_reclaim, tape_strategy(700), |ctx, tape| check_case(ctx, tape, "reclaim"));
         tape_triage(ctx, check_case);
     }
     fn replay(&self, ctx: &mut ShardCtx, _stage: &str, input: &J) -> Outcome {
